@@ -198,7 +198,7 @@ pub fn facts<'a>(cx: &'a Cx) -> BTreeMap<u32, AF<'a>> {
             }
             K::Effect { actor, what, ok, .. } if *what == "ctx_stop" => {
                 if let Some(af) = out.get_mut(actor) {
-                    af.stops.push(StopReq { b: e.stamp, r: e.stamp, accepted: *ok, kind: "ctx_stop" });
+                    af.stops.push(StopReq { b: ix.effect_begin(e.stamp), r: e.stamp, accepted: *ok, kind: "ctx_stop" });
                 }
             }
             _ => {}
